@@ -7,29 +7,53 @@ Three parties answer the same history, operation by operation, query by query:
   * the Lean model (`lean/Driver/C04.lean`: concrete `Store` and abstract `Spec` side by side); a difference
     real/Lean that the oracle does not see is a broken correspondence.
 Listings are compared as multisets (items sorted), exceptions as `rej`, dicts by content.
+
+The real object is driven like a user's program drives it (strengthening round): every label / layer name of every call is
+a freshly constructed EQUAL object (never the object stored in the hypergraph), node sets and argument lists come as tuple,
+list, set, frozenset, range, generator, iterator, dict, dict keys, numpy array, string of one-letter labels, arguments are
+passed positionally / by keyword / left out, the caller overwrites its own argument containers after the call and the
+containers it got back from the queries (lists, dicts, the aggregated Hypergraph), and then asks everything again.
 """
 import contextlib
 import copy
 import io
 import json
+import os
+import random
 import signal
+import zlib
+
+import numpy as np
 
 import hgxv
 
-RULE = ("random histories of 1-40 public calls on one MultiplexHypergraph (3-6 nodes, 2-3 layer names, integer / shifted "
-        "integer / string labels, both weightedness settings, 15 % built through the constructor): add_node(s), add_edge "
-        "(permuted node order, a pool of 3-5 node sets re-used across layers), add_edges (same node set in several layers, "
-        "also twice in the same layer, wrong-length layer/weight/metadata lists), remove_edge, remove_node with both "
-        "keep_edges, set_weight, all metadata setters; 10-15 % malformed calls. After EVERY call ~45 queries (nodes, records, "
-        "weights, incident/degree with and without size/order filter, layers, metadata, aggregated_hypergraph through its "
-        "public API, edge_overlap) are compared and the object's internal tables are compared before/after the queries. "
+RULE = ("random histories of 1-40 public calls on one MultiplexHypergraph (3-6 nodes, 2-3 layer names; 11 labelings: small / "
+        "large (> 256, > 2**63) / negative ints, floats, literal and run-time strings as node labels, strings, ints, floats, tuples "
+        "as layer names; both weightedness settings, 45 % of the unweighted histories promoted by add_edges(weights=...) and "
+        "continued with real weights; 15 % built through the constructor): add_node(s), add_edge (permuted node order, a pool "
+        "of 3-5 node sets re-used across layers), add_edges (same node set in several layers, also twice in the same layer, "
+        "wrong-length layer/weight/metadata lists), remove_edge, remove_node with both keep_edges, set_weight, all metadata "
+        "setters; 10-15 % malformed calls. Every call gets fresh equal label objects, a random container type per node set / "
+        "argument list, a random positional / keyword / left-out spelling of its options, and its argument containers are "
+        "overwritten afterwards. After EVERY call ~45 queries (nodes, records, weights, incident/degree with and without "
+        "size/order filter in all spellings, layers, metadata, aggregated_hypergraph through its public API, edge_overlap) are "
+        "compared and the object's internal tables are compared before/after the queries; after half of the calls every "
+        "returned list / dict / aggregate is overwritten by the harness and all queries are asked again. "
         "A history is distinct by its canonical text and non-trivial when it has >= 1 accepted removal and >= 1 insertion of "
         "a (node set, layer) key that is or was present")
-ASSUMPTIONS = ["hyperedges are duplicate-free node tuples over mutually comparable labels (the property's quantifier)",
+ASSUMPTIONS = ["hyperedges are duplicate-free node sets over mutually comparable labels (the property's quantifier); node labels "
+               "are not tuples (a pair of tuples is read by _canon_edge as a directed (source, target) pair - by design)",
                "labels / layer names reach the model as their rank; weights are multiples of 1/4 (exact in binary64)",
                "a rejected call is one that raises any exception; it must leave every query unchanged",
                "layers in use = registry of layer names seen by accepted insertions (get_existing_layers)",
-               "edge_overlap(e) = sum over layers of get_weight(e, layer) (also for unweighted hypergraphs)"]
+               "edge_overlap(e) = sum over layers of get_weight(e, layer) (also for unweighted hypergraphs)",
+               "a node set may be any finite iterable of labels; argument LISTS (hyperedges, layers, weights, metadata, nodes) are "
+               "sized re-iterable collections (list, tuple, numpy array; for add_nodes also set / frozenset / dict keys); the "
+               "node sets of a weighted batch are hashable (the library's repeated-pair test puts them in a set)",
+               "by design the library stores / returns metadata dicts (and the layer registry) by reference: an edit of such a dict by "
+               "the caller may act like the public setter on that ONE node / record / hypergraph-metadata field, or not at all - "
+               "nothing else may change; freshly built return values (lists, get_edges(metadata=True), degree_sequence, the "
+               "aggregate and its own metadata) and the caller's argument lists are independent of the object"]
 TRUSTED = ["the aggregate returned by aggregated_hypergraph() is observed through Hypergraph's public API; the model builds it "
            "with the abstract add_node/add_edge of a plain hypergraph (property C01)"]
 BUDGET_S = {"quick": 55, "thorough": 840}
@@ -40,7 +64,8 @@ HVAL.update({0: False, 1: True, 2: "MultiplexHypergraph", 3: "Hypergraph"})
 VAL_REV = {json.dumps(v, sort_keys=True): k for k, v in VAL.items()}
 HVAL_REV = {json.dumps(v, sort_keys=True): k for k, v in HVAL.items()}
 FIELDS = [100, 101, 102]
-# node labels / layer names per rank; they include the falsy labels 0 and '' and layer names equal to node labels
+# node labels / layer names per rank (node labels ascending); they include the falsy labels 0 and '' and layer names equal to
+# node labels; from 6 on: objects that CPython does not share (ints > 256, run-time strings, floats, tuples)
 LABELINGS = [
     {"nodes": [0, 1, 2, 3, 4, 5], "layers": ["A", "B", "C"]},
     {"nodes": [10, 13, 21, 22, 40, 57], "layers": ["", "work", "x"]},
@@ -48,7 +73,13 @@ LABELINGS = [
     {"nodes": [3, 4, 8, 9, 11, 12], "layers": [7, 8, 9]},
     {"nodes": [0, 1, 2, 3, 4, 5], "layers": [0, 1, 2]},
     {"nodes": ["a", "b", "c", "d", "e", "f"], "layers": ["a", "b", "c"]},
+    {"nodes": [1000, 1001, 1002, 1003, 1004, 1005], "layers": [300, 1000, 70000]},
+    {"nodes": [257, 1000, 4096, 2 ** 31, 2 ** 63, 2 ** 70 + 1], "layers": ["layer one", "layer two", "λ3"]},
+    {"nodes": ["n-10", "n-11", "n-2", "node three", "zz top", "ü"], "layers": [("L", 1), ("L", 2), ("M", 0)]},
+    {"nodes": [-2.5, 0.5, 1.5, 2.25, 1e18, 3e300], "layers": [-1.0, 1.5, 2.5]},
+    {"nodes": [-70000, -300, -6, 300, 70000, 10 ** 20], "layers": ["a b", "a  b", "a b "]},
 ]
+assert all(sorted(lb["nodes"]) == lb["nodes"] for lb in LABELINGS)
 
 
 # ------------------------------------------------------------------------------------------ rendering
@@ -266,35 +297,214 @@ class Oracle:
         raise AssertionError(q)
 
 
+# ------------------------------------------------------------------------------------------ label objects and containers
+class Hang(BaseException):
+    """not an Exception: the blanket `except Exception` observations must not swallow the alarm"""
+
+
+def _alarm(signum, frame):
+    raise Hang()
+
+
+def fresh(x, rs=None):
+    """an EQUAL but freshly constructed object (ints outside CPython's small-int cache, run-time strings, tuples and
+    floats are new objects on every call; with `rs` occasionally the numpy scalar of the same value)"""
+    if isinstance(x, bool) or x is None:
+        return x
+    if isinstance(x, int):
+        if rs is not None and -2 ** 62 < x < 2 ** 62 and rs.random() < 0.08:
+            return np.int64(x)
+        return int(str(x))
+    if isinstance(x, float):
+        if rs is not None and rs.random() < 0.08:
+            return np.float64(x)
+        return float(repr(x))
+    if isinstance(x, str):
+        return "".join(list(x))
+    if isinstance(x, tuple):
+        return tuple(fresh(y) for y in x)
+    return x
+
+
+def np_arr(objs):
+    objs = list(objs)
+    if any(isinstance(x, int) and abs(x) >= 2 ** 62 for x in objs) or any(isinstance(x, (tuple, list)) for x in objs):
+        a = np.empty(len(objs), dtype=object)
+        for i, x in enumerate(objs):
+            a[i] = x
+        return a
+    return np.array(objs)
+
+
+def mk_edge(objs, rs, stats=None, hashable=False, norepeat=True):
+    """one hyperedge (node set) as a container of some type; `hashable`: only what may sit in set(zip(edges, layers)),
+    and unless `norepeat` only containers whose equality is the equality of the node tuples as given"""
+    objs = list(objs)
+    kinds = ["t", "t", "l", "l", "s", "f", "g", "i", "k", "d", "n"]
+    if objs and all(type(x) is int for x in objs) and sorted(objs) == list(range(min(objs), min(objs) + len(objs))):
+        kinds += ["r", "r"]
+    if all(type(x) is str and len(x) == 1 for x in objs):
+        kinds += ["S"]
+    if hashable:
+        kinds = ["t", "t"] + [k for k in kinds if norepeat and k in "fgrS"]
+    k = rs.choice(kinds)
+    if stats is not None:
+        stats["edge_as_" + k] = stats.get("edge_as_" + k, 0) + 1
+    if k == "t":
+        return tuple(objs)
+    if k == "l":
+        return list(objs)
+    if k == "s":
+        return set(objs)
+    if k == "f":
+        return frozenset(objs)
+    if k == "g":
+        return (x for x in objs)
+    if k == "i":
+        return iter(list(objs))
+    if k == "k":
+        return dict.fromkeys(objs).keys()
+    if k == "d":
+        return dict.fromkeys(objs, 1)
+    if k == "n":
+        return np_arr(objs)
+    if k == "r":
+        return range(min(objs), max(objs) + 1) if rs.random() < 0.5 else range(max(objs), min(objs) - 1, -1)
+    if k == "S":
+        return "".join(objs)
+    raise AssertionError(k)
+
+
+def mk_seq(items, rs, kinds="lt", stats=None, name="seq"):
+    """an argument list (hyperedges, layers, weights, metadata, nodes) as list / tuple / numpy array / set / ..."""
+    items = list(items)
+    k = rs.choice(kinds)
+    if k == "n":
+        try:
+            a = np_arr(items)
+            if a.ndim != 1 or len(a) != len(items):
+                k = "l"
+        except Exception:
+            k = "l"
+    if stats is not None:
+        stats[f"{name}_as_{k}"] = stats.get(f"{name}_as_{k}", 0) + 1
+    if k == "l":
+        return list(items)
+    if k == "t":
+        return tuple(items)
+    if k == "n":
+        return a
+    if k == "s":
+        return set(items)
+    if k == "f":
+        return frozenset(items)
+    if k == "k":
+        return dict.fromkeys(items).keys()
+    raise AssertionError(k)
+
+
+def spoil(c):
+    """what a caller may do with ITS OWN argument after the call returned"""
+    try:
+        if isinstance(c, list):
+            c[:] = ["spoiled"]
+        elif isinstance(c, set):
+            c.clear()
+            c.add("spoiled")
+        elif isinstance(c, dict):
+            c.clear()
+        elif isinstance(c, np.ndarray) and c.size:
+            c[...] = c.flat[0]
+    except Exception:
+        pass
+
+
+def call(f, pos, kw, rs, names):
+    """call f with the arguments `pos` (in the order of the parameter names `names`) positionally up to a random point,
+    by keyword from there on; trailing `None` optional arguments (those in `kw`) are left out or passed explicitly"""
+    cut = rs.randint(0, len(pos))
+    args = list(pos[:cut])
+    kwargs = {n: v for n, v in zip(names[cut:], pos[cut:])}
+    opt = list(kw)                       # [(name, value)] optional parameters in signature order
+    explicit = rs.random() < 0.5
+    positional_ok = cut == len(pos)
+    for name, v in opt:
+        if v is None and not explicit:
+            positional_ok = False
+            continue
+        if positional_ok and rs.random() < 0.4:
+            args.append(v)
+        else:
+            positional_ok = False
+            kwargs[name] = v
+    return f(*args, **kwargs)
+
+
 # ------------------------------------------------------------------------------------------ the real object
 class Real:
-    def __init__(self, lab, weighted, hm, ctor=None):
+    def __init__(self, lab, weighted, hm, ctor=None, sty=0):
         from hypergraphx import MultiplexHypergraph
         self.lab = lab
         self.nl = lab["nodes"]
         self.ll = lab["layers"]
         self.nrank = {x: i for i, x in enumerate(self.nl)}
         self.lrank = {x: i for i, x in enumerate(self.ll)}
-        kw = {"weighted": bool(weighted)}
+        self.stats = {}
+        self.sty = sty
+        self.qs = random.Random(sty * 7919 + 13)
+        self._agg = None
+        self.pending = None            # candidate equivalents of what the harness did to a by-design shared dict
+        rs = random.Random(zlib.crc32(json.dumps(["ctor", weighted, hm, ctor, sty]).encode()))
+        pos_all = rs.random() < 0.25
+        kw = {}
+        if weighted or rs.random() < 0.5:
+            kw["weighted"] = bool(weighted)
         if hm:
             kw["hypergraph_metadata"] = self.hmd(hm)
+        elif rs.random() < 0.3:
+            kw["hypergraph_metadata"] = rs.choice([None, {}])
+        self.args = []
         if ctor is not None:
             # constructor path: node_metadata, then edge_list (+ edge_layer or embedded layers), weights, edge_metadata
             nm, raws, ls, ws, mds, embedded = ctor
             if nm:
-                kw["node_metadata"] = {self.nl[n]: self.md(md) for n, md in nm}
-            edges = [tuple(self.nl[x] for x in r) for r in raws]
-            layers = [self.ll[l] for l in ls]
+                kw["node_metadata"] = {self.N(n, rs): self.md(md) for n, md in nm}
+            hashable = ws is not None
+            keys = [(frozenset(r), l) for r, l in zip(raws, ls)]
+            norepeat = len(set(keys)) == len(keys)
+            edges = [mk_edge([self.N(x, rs) for x in r], rs, self.stats, hashable, norepeat) for r in raws]
+            layers = [self.L(l, rs) for l in ls]
             if embedded:
-                kw["edge_list"] = [(e, l) for e, l in zip(edges, layers)]
+                kw["edge_list"] = mk_seq([(e, l) for e, l in zip(edges, layers)], rs, "lt")
             else:
-                kw["edge_list"] = edges
-                kw["edge_layer"] = layers
+                same = len({len(r) for r in raws}) == 1 and len(raws[0]) >= 1 and ws is None
+                kw["edge_list"] = mk_seq(edges, rs, "llt") if not (same and rs.random() < 0.2) else \
+                    np.array([np_arr([self.N(x, rs) for x in r]) for r in raws])
+                kw["edge_layer"] = mk_seq(layers, rs, "lltn", self.stats, "layers")
             if ws is not None:
-                kw["weights"] = [w / 4 for w in ws]
+                kw["weights"] = mk_seq([pyw(w, i % 2) for i, w in enumerate(ws)], rs, "lltn", self.stats, "weights")
             if mds is not None:
-                kw["edge_metadata"] = [self.md(m) for m in mds]
-        self.h = MultiplexHypergraph(**kw)
+                kw["edge_metadata"] = mk_seq([self.md(m) for m in mds], rs, "lt")
+            self.args = [kw.get("edge_list"), kw.get("edge_layer"), kw.get("weights"), kw.get("edge_metadata"), kw.get("node_metadata")]
+        if pos_all:
+            order = ["edge_list", "edge_layer", "weighted", "weights", "hypergraph_metadata", "node_metadata", "edge_metadata"]
+            dflt = {"weighted": False}
+            last = max([i for i, n in enumerate(order) if n in kw], default=-1)
+            self.h = MultiplexHypergraph(*[kw.get(n, dflt.get(n)) for n in order[:last + 1]])
+        else:
+            self.h = MultiplexHypergraph(**kw)
+        for c in self.args:            # the caller re-uses its lists afterwards
+            spoil(c)
+
+    # rank -> fresh label object
+    def N(self, i, rs=None):
+        return fresh(self.nl[i], rs)
+
+    def L(self, i, rs=None):
+        return fresh(self.ll[i], rs)
+
+    def E(self, raw, rs, hashable=False, norepeat=True):
+        return mk_edge([self.N(x, rs) for x in raw], rs, self.stats, hashable, norepeat)
 
     # token -> python
     def md(self, pairs):
@@ -308,7 +518,7 @@ class Real:
         if k == 2:
             return "multiplex_metadata"
         if 10 <= k < 10 + len(self.ll):
-            return self.ll[k - 10]
+            return self.L(k - 10)
         return f"f{k}"
 
     def hmd(self, pairs):
@@ -325,8 +535,8 @@ class Real:
     def r_hmd(self, d):
         out = []
         for k, v in d.items():
-            if k in self.lrank and not isinstance(k, bool):
-                kk = 10 + self.lrank[k]
+            if not isinstance(k, bool) and self.rl(k) < 900:
+                kk = 10 + self.rl(k)
             elif k == "weighted":
                 kk = 0
             elif k == "type":
@@ -341,7 +551,10 @@ class Real:
         return out
 
     def rn(self, x):
-        return self.nrank.get(x, 997) if not isinstance(x, (list, tuple, set, frozenset, dict)) else 996
+        try:
+            return self.nrank.get(x, 997)
+        except TypeError:
+            return 996
 
     def rl(self, x):
         try:
@@ -353,76 +566,145 @@ class Real:
         nodes, layer = k
         return fkey([self.rn(x) for x in nodes], self.rl(layer))
 
-    def e(self, raw):
-        return tuple(self.nl[x] for x in raw)
+    def _share(self, d, rs, equiv, hyper=False):
+        """the caller edits a dict it handed over / got back (by design of the library such a dict may be the stored one):
+        sets one field; `equiv(f, v)` = the public call that has the same effect when the dict is shared"""
+        if rs.random() < 0.25 and d and not hyper:
+            f = next(iter(d))
+            if isinstance(f, str) and f[:1] == "f" and f[1:].isdigit():
+                del d[f]
+                self.pending = [[], [equiv(int(f[1:]), None)]]
+                return
+        if hyper:
+            k, v = rs.choice([100, 101, 102, 2, 10]), rs.choice(list(HVAL))
+            d[self.hkey(k)] = copy.deepcopy(HVAL[v])
+        else:
+            k, v = rs.choice(FIELDS), rs.choice(list(VAL))
+            d[f"f{k}"] = copy.deepcopy(VAL[v])
+        self.pending = [[], [equiv(k, v)]]
 
-    def apply(self, op):
+    def apply(self, op, rs):
+        """one public mutating call; arguments are fresh equal objects in containers of varying type, passed positionally
+        or by keyword; afterwards the caller's own containers are overwritten (nothing of them may have been kept)"""
         h, t = self.h, op[0]
+        self.pending = None
+        used = []
+        alias = None
         try:
             if t == "addnode":
-                if op[2] is None:
-                    h.add_node(self.nl[op[1]])
-                else:
-                    h.add_node(self.nl[op[1]], metadata=self.md(op[2]))
+                md = None if op[2] is None else self.md(op[2])
+                call(h.add_node, [self.N(op[1], rs)], [("metadata", md)], rs, ["node"])
+                if md is not None:
+                    alias = (md, lambda f, v: ["setattrn", op[1], f, v] if v is not None else ["delattrn", op[1], f])
             elif t == "addnodes":
-                ns = [self.nl[n] for n in op[1]]
-                if op[2] is None:
-                    h.add_nodes(ns)
-                else:
-                    h.add_nodes(ns, node_metadata={self.nl[n]: self.md(md) for n, md in op[2]})
+                ns = mk_seq([self.N(n, rs) for n in op[1]], rs, "lltsfkn", self.stats, "nodes")
+                d = None if op[2] is None else {self.N(n, rs): self.md(md) for n, md in op[2]}
+                used += [ns, d]
+                if d is not None and op[1]:
+                    i = rs.choice(op[1])
+                    if any(n == i for n, _ in op[2]):
+                        alias = (d[self.nl[i]], lambda f, v: ["setattrn", i, f, v] if v is not None else ["delattrn", i, f])
+                call(h.add_nodes, [ns], [("node_metadata", d)], rs, ["node_list"])
             elif t == "addedge":
-                kw = {}
-                if op[3] is not None:
-                    kw["weight"] = pyw(op[3], (len(op[1]) + op[2] + op[3]) % 2)
-                if op[4] is not None:
-                    kw["metadata"] = self.md(op[4])
-                h.add_edge(self.e(op[1]), self.ll[op[2]], **kw)
+                w = None if op[3] is None else pyw(op[3], (len(op[1]) + op[2] + op[3]) % 2)
+                if w is not None and rs.random() < 0.1:
+                    w = np.float64(w)
+                md = None if op[4] is None else self.md(op[4])
+                e = self.E(op[1], rs)
+                used.append(e)
+                if md is not None:
+                    alias = (md, lambda f, v: ["setattre", op[1], op[2], f, v] if v is not None else ["delattre", op[1], op[2], f])
+                call(h.add_edge, [e, self.L(op[2], rs)], [("weight", w), ("metadata", md)], rs, ["edge", "layer"])
             elif t == "addedges":
-                kw = {}
-                if op[3] is not None:
-                    kw["weights"] = [pyw(w, (i + len(op[1])) % 2) for i, w in enumerate(op[3])]
-                if op[4] is not None:
-                    kw["metadata"] = [self.md(m) for m in op[4]]
-                h.add_edges([self.e(r) for r in op[1]], [self.ll[l] for l in op[2]], **kw)
-            elif t == "rmedge":
-                h.remove_edge((self.e(op[1]), self.ll[op[2]]))
-            elif t == "rmnode":
-                if op[2]:
-                    h.remove_node(self.nl[op[1]], keep_edges=True)
+                raws, ls, ws, mds = op[1:5]
+                keys = [(frozenset(r), l) for r, l in zip(raws, ls)]
+                norepeat = len(set(keys)) == len(keys)
+                es = [self.E(r, rs, ws is not None, norepeat) for r in raws]
+                same = ws is None and raws and len({len(r) for r in raws}) == 1 and len(raws[0]) >= 1
+                if same and rs.random() < 0.15:
+                    el = np.array([np_arr([self.N(x, rs) for x in r]) for r in raws])
+                    self.stats["edges_as_2d"] = self.stats.get("edges_as_2d", 0) + 1
                 else:
-                    h.remove_node(self.nl[op[1]])
+                    el = mk_seq(es, rs, "llt")
+                lay = mk_seq([self.L(l, rs) for l in ls], rs, "lltn", self.stats, "layers")
+                wl = None if ws is None else mk_seq([pyw(w, (i + len(raws)) % 2) for i, w in enumerate(ws)], rs, "lltn",
+                                                    self.stats, "weights")
+                ml = None if mds is None else [self.md(m) for m in mds]
+                if ml is not None and raws and len(ml) >= len(raws) and len(ls) >= len(raws):
+                    i = rs.randrange(len(raws))
+                    if keys[i] not in keys[i + 1:]:
+                        d0, ri, li = ml[i], raws[i], ls[i]
+                        alias = (d0, lambda f, v: ["setattre", ri, li, f, v] if v is not None else ["delattre", ri, li, f])
+                mlc = None if ml is None else mk_seq(ml, rs, "lt")
+                used += [el, lay, wl, mlc] + es
+                call(h.add_edges, [el, lay], [("weights", wl), ("metadata", mlc)], rs, ["edge_list", "edge_layer"])
+            elif t == "rmedge":
+                pair = [self.E(op[1], rs), self.L(op[2], rs)]
+                pair = tuple(pair) if rs.random() < 0.7 else pair
+                used += [pair[0], pair]
+                call(h.remove_edge, [pair], [], rs, ["edge"])
+            elif t == "rmnode":
+                keep = bool(op[2])
+                if not keep and rs.random() < 0.6:
+                    h.remove_node(self.N(op[1], rs))
+                else:
+                    call(h.remove_node, [self.N(op[1], rs)], [("keep_edges", keep)], rs, ["node"])
             elif t == "setw":
-                h.set_weight(self.e(op[1]), self.ll[op[2]], pyw(op[3], (len(op[1]) + op[3]) % 2))
+                w = pyw(op[3], (len(op[1]) + op[3]) % 2)
+                if rs.random() < 0.1:
+                    w = np.float64(w)
+                e = self.E(op[1], rs)
+                used.append(e)
+                call(h.set_weight, [e, self.L(op[2], rs), w], [], rs, ["edge", "layer", "weight"])
             elif t == "sethmeta":
-                h.set_hypergraph_metadata(self.hmd(op[1]))
+                d = self.hmd(op[1])
+                alias = (d, lambda f, v: ["setattrh", f, v], True)
+                call(h.set_hypergraph_metadata, [d], [], rs, ["metadata"])
             elif t == "setattrh":
-                h.set_attr_to_hypergraph_metadata(self.hkey(op[1]), copy.deepcopy(HVAL.get(op[2])))
+                call(h.set_attr_to_hypergraph_metadata, [self.hkey(op[1]), copy.deepcopy(HVAL.get(op[2]))], [], rs, ["field", "value"])
             elif t == "setlayermeta":
-                h.set_layer_metadata(self.ll[op[1]], copy.deepcopy(HVAL.get(op[2])))
+                call(h.set_layer_metadata, [self.L(op[1], rs), copy.deepcopy(HVAL.get(op[2]))], [], rs, ["layer_name", "metadata"])
             elif t == "setdsmeta":
-                h.set_dataset_metadata(copy.deepcopy(HVAL.get(op[1])))
+                call(h.set_dataset_metadata, [copy.deepcopy(HVAL.get(op[1]))], [], rs, ["metadata"])
             elif t == "setattrn":
-                h.set_attr_to_node_metadata(self.nl[op[1]], f"f{op[2]}", copy.deepcopy(VAL.get(op[3])))
+                call(h.set_attr_to_node_metadata, [self.N(op[1], rs), f"f{op[2]}", copy.deepcopy(VAL.get(op[3]))], [], rs,
+                     ["node", "field", "value"])
             elif t == "delattrn":
-                h.remove_attr_from_node_metadata(self.nl[op[1]], f"f{op[2]}")
+                call(h.remove_attr_from_node_metadata, [self.N(op[1], rs), f"f{op[2]}"], [], rs, ["node", "field"])
             elif t == "setattre":
-                h.set_attr_to_edge_metadata(self.e(op[1]), self.ll[op[2]], f"f{op[3]}", copy.deepcopy(VAL.get(op[4])))
+                e = self.E(op[1], rs)
+                used.append(e)
+                call(h.set_attr_to_edge_metadata, [e, self.L(op[2], rs), f"f{op[3]}", copy.deepcopy(VAL.get(op[4]))], [], rs,
+                     ["edge", "layer", "field", "value"])
             elif t == "delattre":
-                h.remove_attr_from_edge_metadata(self.e(op[1]), self.ll[op[2]], f"f{op[3]}")
+                e = self.E(op[1], rs)
+                used.append(e)
+                call(h.remove_attr_from_edge_metadata, [e, self.L(op[2], rs), f"f{op[3]}"], [], rs, ["edge", "layer", "field"])
             else:
                 raise AssertionError(op)
-            return "ok"
+            res = "ok"
         except AssertionError:
             raise
         except Exception:
-            return "rej"
+            res = "rej"
+        for c in used:
+            spoil(c)
+        if res == "ok" and alias is not None and rs.random() < 0.5:
+            self._share(alias[0], rs, alias[1], len(alias) > 2)
+        return res
 
-    def filt(self, f):
+    def fargs(self, f, rs):
+        """the order / size options in all their spellings"""
         if f == "a":
-            return {}
+            return rs.choice([([], {}), ([], {}), ([None], {}), ([None, None], {}), ([], {"order": None}), ([], {"size": None}),
+                              ([], {"order": None, "size": None})])
         if f[0] == "b":      # both given (must raise), including the falsy values 0
-            return {"order": int(f[1]), "size": int(f[2])}
-        return {"size": int(f[1:])} if f[0] == "s" else {"order": int(f[1:])}
+            o, s = int(f[1]), int(f[2])
+            return rs.choice([([], {"order": o, "size": s}), ([o, s], {}), ([o], {"size": s})])
+        k = int(f[1:])
+        if f[0] == "s":
+            return rs.choice([([], {"size": k}), ([], {"size": k}), ([None, k], {}), ([None], {"size": k}), ([], {"order": None, "size": k})])
+        return rs.choice([([], {"order": k}), ([], {"order": k}), ([k], {}), ([k, None], {}), ([], {"order": k, "size": None})])
 
     def agg(self):
         if self._agg is None:
@@ -438,44 +720,58 @@ class Real:
         except Exception:
             return "rej"
 
+    def flag(self, v):
+        """metadata=True / False in its spellings"""
+        rs = self.qs
+        if v:
+            return rs.choice([([True], {}), ([], {"metadata": True})])
+        return rs.choice([([], {}), ([], {}), ([False], {}), ([], {"metadata": False})])
+
     def _query(self, q):
-        h, t = self.h, q[0]
+        h, t, rs = self.h, q[0], self.qs
         if t == "nodes":
-            return items(str(self.rn(n)) for n in h.get_nodes())
+            a, k = self.flag(False)
+            return items(str(self.rn(n)) for n in h.get_nodes(*a, **k))
         if t == "nodesmeta":
-            return items(f"{self.rn(n)};{fmeta(self.r_md(md))}" for n, md in h.get_nodes(metadata=True).items())
+            a, k = self.flag(True)
+            return items(f"{self.rn(n)};{fmeta(self.r_md(md))}" for n, md in h.get_nodes(*a, **k).items())
         if t == "edges":
-            return items(self.rkey(k) for k in h.get_edges())
+            a, k = self.flag(False)
+            return items(self.rkey(x) for x in h.get_edges(*a, **k))
         if t == "edgesmeta":
-            return items(f"{self.rkey(k)};{fmeta(self.r_md(md))}" for k, md in h.get_edges(metadata=True).items())
+            a, k = self.flag(True)
+            return items(f"{self.rkey(x)};{fmeta(self.r_md(md))}" for x, md in h.get_edges(*a, **k).items())
         if t == "weights":
-            return items(f"{self.rkey(k)};{fq(h.get_weight(k[0], k[1]))}" for k in h.get_edges())
+            return items(f"{self.rkey(x)};{fq(h.get_weight(x[0], x[1]))}" for x in h.get_edges())
         if t == "weight":
-            return fq(h.get_weight(self.e(q[1]), self.ll[q[2]]))
+            return fq(call(h.get_weight, [self.E(q[1], rs), self.L(q[2], rs)], [], rs, ["edge", "layer"]))
         if t == "emeta":
-            return fmeta(self.r_md(h.get_edge_metadata(self.e(q[1]), self.ll[q[2]])))
+            return fmeta(self.r_md(call(h.get_edge_metadata, [self.E(q[1], rs), self.L(q[2], rs)], [], rs, ["edge", "layer"])))
         if t == "incident":
-            return items(self.rkey(k) for k in h.get_incident_edges(self.nl[q[1]], **self.filt(q[2])))
+            a, k = self.fargs(q[2], rs)
+            return items(self.rkey(x) for x in h.get_incident_edges(self.N(q[1], rs), *a, **k))
         if t == "degree":
-            d = h.degree(self.nl[q[1]], **self.filt(q[2]))
+            a, k = self.fargs(q[2], rs)
+            d = h.degree(self.N(q[1], rs), *a, **k)
             return str(int(d)) if d == int(d) else repr(d)
         if t == "degseq":
-            return items(f"{self.rn(n)};{d}" for n, d in h.degree_sequence(**self.filt(q[1])).items())
+            a, k = self.fargs(q[1], rs)
+            return items(f"{self.rn(n)};{d}" for n, d in h.degree_sequence(*a, **k).items())
         if t == "layers":
             return items(str(self.rl(l)) for l in h.get_existing_layers())
         if t == "inuse":
-            return items(str(self.rl(l)) for l in {k[1] for k in h.get_edges()})
+            return items(str(self.rl(l)) for l in {x[1] for x in h.get_edges()})
         if t == "hmeta":
             return items(f"{k};{v}" for k, v in self.r_hmd(h.get_hypergraph_metadata()))
         if t == "layermeta":
-            return str(HVAL_REV.get(json.dumps(h.get_layer_metadata(self.ll[q[1]]), sort_keys=True), 999))
+            return str(HVAL_REV.get(json.dumps(h.get_layer_metadata(self.L(q[1], rs)), sort_keys=True), 999))
         if t == "dsmeta":
             return str(HVAL_REV.get(json.dumps(h.get_dataset_metadata(), sort_keys=True), 999))
         if t == "weighted":
             return "1" if h.is_weighted() is True else ("0" if h.is_weighted() is False else "weird")
         if t == "overlap":
             from hypergraphx.measures.multiplex import edge_overlap
-            return fq(edge_overlap(h, self.e(q[1])))
+            return fq(call(edge_overlap, [h, self.E(q[1], rs)], [], rs, ["h", "edge"]))
         st, a = self.agg()
         if st != "ok":
             return "rej"
@@ -501,7 +797,93 @@ class Real:
         except Exception as ex:
             return "exc " + type(ex).__name__
 
+    # ---- what a caller may do with the values it got back
+    def abuse(self, orc, rs, n):
+        """(a) every freshly built list / dict / Hypergraph that a query returned is overwritten by the caller: the multiplex
+        hypergraph must not notice; (b) one edit of a metadata dict reached through a getter (by design of the library this
+        may be the stored dict): the effect must be that of the corresponding public setter on that ONE item, or nothing.
+        Returns the candidate equivalents of (b) as lists of operations"""
+        h = self.h
+        self.pending = None
 
+        def guard(f):
+            try:
+                f()
+            except Exception:
+                pass
+
+        nodes = sorted(orc.N)
+        keys = sorted(orc.E, key=lambda k: (sorted(k[0]), k[1]))
+        # (b) first, on a second reference, so that (a) cannot hide it
+        kind = rs.choice(["nm", "em", "em1", "hm", "reg", "aggn", "agge", None, None])
+        try:
+            if kind == "nm" and nodes:
+                x = rs.choice(nodes)
+                self._share(h.get_nodes(metadata=True)[self.N(x, rs)], rs,
+                            lambda f, v: ["setattrn", x, f, v] if v is not None else ["delattrn", x, f])
+            elif kind in ("em", "em1") and keys:
+                e, l = rs.choice(keys)
+                e = sorted(e)
+                d = h.get_edges(metadata=True)[(tuple(self.N(y) for y in e), self.L(l))] if kind == "em" else \
+                    h.get_edge_metadata(self.E(e, rs), self.L(l, rs))
+                self._share(d, rs, lambda f, v: ["setattre", e, l, f, v] if v is not None else ["delattre", e, l, f])
+            elif kind == "hm":
+                self._share(h.get_hypergraph_metadata(), rs, lambda f, v: ["setattrh", f, v], True)
+            elif kind == "reg":
+                l = rs.randrange(len(self.ll))
+                h.get_existing_layers().add(self.L(l, rs))
+                if l not in orc.reg and (frozenset(), l) not in orc.E:
+                    self.pending = [[], [["addedge", [], l, None, None], ["rmedge", [], l]]]
+            elif kind == "aggn" and nodes:
+                x = rs.choice(nodes)
+                a = h.aggregated_hypergraph()
+                k, v = rs.choice(FIELDS), rs.choice(list(VAL))
+                if rs.random() < 0.5:
+                    a.set_attr_to_node_metadata(self.N(x, rs), f"f{k}", copy.deepcopy(VAL[v]))
+                else:
+                    a.get_nodes(metadata=True)[self.N(x, rs)][f"f{k}"] = copy.deepcopy(VAL[v])
+                self.pending = [[], [["setattrn", x, k, v]]]
+            elif kind == "agge" and keys:
+                e = sorted(rs.choice(keys)[0])
+                a = h.aggregated_hypergraph()
+                k, v = rs.choice(FIELDS), rs.choice(list(VAL))
+                if rs.random() < 0.5:
+                    a.set_attr_to_edge_metadata(self.E(e, rs), f"f{k}", copy.deepcopy(VAL[v]))
+                else:
+                    a.get_edge_metadata(tuple(self.N(y) for y in e))[f"f{k}"] = copy.deepcopy(VAL[v])
+                self.pending = [[]] + [[["setattre", e, l, k, v]] for (e2, l) in keys if sorted(e2) == e]
+        except Exception:
+            pass
+        # (a)
+        guard(lambda: spoil(h.get_nodes()))
+        guard(lambda: spoil(h.get_edges()))
+        guard(lambda: spoil(h.get_edges(metadata=True)))
+        guard(lambda: spoil(h.degree_sequence()))
+        guard(lambda: spoil(h.degree_sequence(size=2)))
+        for x in range(n):
+            a, k = self.fargs(rs.choice(["a", "a", "s2", "o1", "s3", "s1"]), rs)
+            guard(lambda: spoil(h.get_incident_edges(self.N(x), *a, **k)))
+        for _ in range(2):            # two aggregates: a memoised one is hit the second time
+            st = {}
+
+            def on_agg():
+                a = h.aggregated_hypergraph()
+                st["a"] = a
+                todo = [lambda: a.get_hypergraph_metadata().update({"type": "zz", "weighted": "zz", "zz": 1}),
+                        lambda: a.set_attr_to_hypergraph_metadata("type", "zz"),
+                        lambda: a.add_node("zz-new"),
+                        lambda: a.add_edge((self.N(rs.randrange(n)), self.N(rs.randrange(n))), **({"weight": 7.5} if a.is_weighted() else {})),
+                        lambda: a.remove_edge(a.get_edges()[0]),
+                        lambda: a.set_weight(a.get_edges()[-1], 9.25 if a.is_weighted() else 1),
+                        lambda: a.remove_node(a.get_nodes()[0], keep_edges=rs.random() < 0.5),
+                        lambda: spoil(a.get_edges()),
+                        lambda: spoil(a.get_nodes()),
+                        lambda: a.clear()]
+                rs.shuffle(todo)
+                for f in todo[:rs.randint(2, 6)]:
+                    guard(f)
+            guard(on_agg)
+        return self.pending or [[]]
 # ------------------------------------------------------------------------------------------ wire lines
 def w_meta(md):
     return "N" if md is None else hgxv.enc_list([x for p in md for x in p])
@@ -558,6 +940,7 @@ def gen_case(rng):
     n = rng.randint(3, 6)
     nl = rng.randint(2, 3)
     weighted = rng.random() < 0.55
+    wst = [weighted]          # what the generator believes about is_weighted() (promotion by a weighted batch)
     pool = []
     for _ in range(rng.randint(3, 5)):
         size = min(n, rng.choice([0, 1, 2, 2, 2, 3, 3, 4]))
@@ -575,7 +958,7 @@ def gen_case(rng):
         return e
 
     def weight(ok=True):
-        if weighted or not ok:
+        if wst[0] or not ok:
             return rng.choice([0, 1, 2, 4, 4, 6, 8, 10])
         return rng.choice([None, None, 4])
 
@@ -594,18 +977,43 @@ def gen_case(rng):
                 prs.add((tuple(r), l))
                 keep.append((r, l))
         raws, ls = [r for r, _ in keep], [l for _, l in keep]
-        ws = [weight() or 4 for _ in raws] if (weighted and rng.random() < 0.7) else None
+        ws = None
+        if rng.random() < (0.7 if weighted else 0.3):      # unweighted + weights: the constructor promotes
+            ws = [rng.choice([1, 2, 4, 4, 6, 8, 10]) for _ in raws]
+            wst[0] = True
         mds = [gen_md(rng, 0) for _ in raws] if rng.random() < 0.4 else None
         nm = [[x, gen_md(rng, 0)] for x in rng.sample(range(n), rng.randint(0, 2))]
         ctor = [nm, raws, ls, ws, mds, rng.random() < 0.5]
     ops = []
     present = set()   # approximate knowledge, only to bias the generator
-    for _ in range(rng.randint(1, 40)):
+    nops = rng.randint(1, 40)
+    promote_at = rng.randrange(0, max(1, nops // 2)) if (not wst[0] and rng.random() < 0.45) else -1
+    for step in range(nops):
         r = rng.random()
-        if r < 0.30:
+        if step == promote_at:
+            # a VALID weighted batch on an unweighted object: from here on it is a weighted hypergraph
+            k = rng.choice([1, 2, 2, 3])
+            seen, raws, ls = set(), [], []
+            for _ in range(k):
+                e, l = raw(), rng.randrange(nl)
+                if (frozenset(e), l) not in seen or rng.random() < 0.3:
+                    if (tuple(e), l) not in {(tuple(a), b) for a, b in zip(raws, ls)}:
+                        seen.add((frozenset(e), l))
+                        raws.append(e)
+                        ls.append(l)
+            ws = [rng.choice([1, 2, 4, 6, 8, 10]) for _ in raws]
+            ops.append(["addedges", raws, ls, ws, [gen_md(rng, 0) for _ in raws] if rng.random() < 0.3 else None])
+            for e, l in zip(raws, ls):
+                present.add((tuple(sorted(e)), l))
+            wst[0] = True
+        elif r < 0.30:
             e, l = raw(), rng.randrange(nl)
+            if present and rng.random() < 0.25:       # a record that is (or was) there, e.g. one that predates a promotion
+                e, l = rng.choice(sorted(present))
+                e = list(e)
+                rng.shuffle(e)
             w = weight() if rng.random() < 0.93 else rng.choice([8, 0])
-            if weighted and rng.random() < 0.2:
+            if wst[0] and rng.random() < 0.2:
                 w = None
             ops.append(["addedge", e, l, w, gen_md(rng)])
             present.add((tuple(sorted(e)), l))
@@ -623,7 +1031,7 @@ def gen_case(rng):
                     raws.append(e2)
                     ls.append(rng.randrange(nl))
             ws = None
-            if rng.random() < (0.7 if weighted else 0.25):
+            if rng.random() < (0.7 if wst[0] else 0.25):
                 ws = [rng.choice([0, 1, 2, 4, 4, 6, 8]) for _ in raws]
                 if rng.random() < 0.08:
                     ws = ws[:-1] if rng.random() < 0.5 else ws + [4]
@@ -633,6 +1041,9 @@ def gen_case(rng):
             if rng.random() < 0.06:
                 ls = ls[:-1] if rng.random() < 0.6 else ls + [0]
             ops.append(["addedges", raws, ls, ws, mds])
+            if ws is not None and len(ws) == len(raws) <= len(ls) and (mds is None or len(mds) >= len(raws)) and \
+                    len({(tuple(a), b) for a, b in zip(raws, ls)}) == len(raws):
+                wst[0] = True
             for e, l in zip(raws, ls):
                 present.add((tuple(sorted(e)), l))
         elif r < 0.54:
@@ -697,7 +1108,7 @@ def gen_case(rng):
             ks = rng.sample([100, 101, 0, 1, 2, 10, 11], rng.randint(0, 3))
             ops.append(["sethmeta", [[k, rng.choice(list(HVAL))] for k in ks]])
     return {"n": n, "nl": nl, "weighted": weighted, "hm0": hm0, "ctor": ctor, "ops": ops, "pool": pool,
-            "labeling": rng.randrange(len(LABELINGS)), "qseed": rng.randrange(1 << 30)}
+            "labeling": rng.randrange(len(LABELINGS)), "qseed": rng.randrange(1 << 30), "sty": rng.randrange(1 << 30)}
 
 
 def digest_queries(case, qrng):
@@ -733,30 +1144,45 @@ ORACLE_ONLY = [["aggkeys"], ["aggweights"]]
 MODEL_ONLY = {"aggedges", "agghmeta"}
 
 
-class Hang(Exception):
-    pass
-
-
-def _alarm(signum, frame):
-    raise Hang()
-
-
 def run_case(ctx, drv, case):
     """returns (kind, what, info): kind in None / 'violation' / 'disagree'"""
     with contextlib.redirect_stdout(io.StringIO()):     # add_edges prints a warning when it switches to weighted
         return _run_case(ctx, drv, case)
 
 
+def resolve(orc, cands, qs, ra):
+    """the first candidate (a list of public calls equivalent to an edit of a by-design shared dict; [] = the dict was not
+    shared) under which the map answers every question like the implementation did: (map, candidate, None); if there is none:
+    (None, None, first difference under the candidate that explains most answers)"""
+    best = None
+    for cand in cands:
+        o2 = orc if not cand else copy.deepcopy(orc)
+        if not all(o2.apply(op) == "ok" for op in cand):
+            continue
+        diffs = []
+        for q, a in zip(qs, ra):
+            if q[0] not in MODEL_ONLY:
+                b = o2.query(q)
+                if a != b:
+                    diffs.append((q, a, b))
+        if not diffs:
+            return o2, cand, None
+        if best is None or len(diffs) < best[0]:
+            best = (len(diffs), diffs[0])
+    return None, None, best[1]
+
+
 def _run_case(ctx, drv, case):
-    import random
     lab = LABELINGS[case["labeling"]]
     qrng = random.Random(case["qseed"])
+    sty = case.get("sty", 0)
     weighted, hm0, ctor = case["weighted"], case["hm0"], case["ctor"]
     old = signal.signal(signal.SIGALRM, _alarm)
-    signal.alarm(20)
+    signal.alarm(30)
     problems = []      # (kind, what)
     lines, real_ans = [], []
-    info = {"removals": 0, "reinserts": 0, "rej": 0, "ok": 0}
+    info = {"removals": 0, "reinserts": 0, "rej": 0, "ok": 0, "shared": 0, "notshared": 0, "requeried": 0, "promoted": 0,
+            "after_promotion": 0, "stats": {}}
     try:
         orc = Oracle(weighted, hm0)
         lines.append(f"new {1 if weighted else 0} {w_meta(hm0)}")
@@ -766,11 +1192,10 @@ def _run_case(ctx, drv, case):
             nm, raws, ls, ws, mds, _ = ctor
             pre = [["addnode", x, md] for x, md in nm] + [["addedges", raws, ls, ws, mds]]
         try:
-            real = Real(lab, weighted, hm0, ctor)
-        except Hang:
-            raise
+            real = Real(lab, weighted, hm0, ctor, sty)
         except Exception as ex:
             return "violation", f"constructor raised {type(ex).__name__}: {ex}", info
+        info["stats"] = real.stats
         for op in pre:
             o = orc.apply(op)
             lines.append(w_op(op))
@@ -779,10 +1204,41 @@ def _run_case(ctx, drv, case):
                 problems.append(("violation", "constructor accepted a batch the map rejects"))
         seen_keys = set(k for k in orc.E)
         steps = [None] + case["ops"]
+
+        def block(idx, op, cands, what):
+            """all queries; the answers must be those of the map (under one of the candidates); returns the map to go on with"""
+            nonlocal orc
+            real._agg = None
+            snap = real.snapshot()
+            qs = digest_queries(case, qrng)
+            ra = [real.query(q) for q in qs]
+            ro = [real.query(q) for q in ORACLE_ONLY]
+            o2, cand, diff = resolve(orc, cands, qs + ORACLE_ONLY, ra + ro)
+            if o2 is None:
+                q, a, b = diff
+                problems.append(("violation", f"after step {idx} {op}{what}: query {q} answers {a!r}, the map gives {b!r}"))
+                return
+            if len(cands) > 1:
+                info["shared" if cand else "notshared"] += 1
+            for x in cand:             # what the edit of the shared dict amounted to, for the model
+                lines.append(w_op(x))
+                real_ans.append("ok")
+            orc = o2
+            for q, a in zip(qs, ra):
+                lines.append(w_q(q))
+                real_ans.append(a)
+            if real.snapshot() != snap:
+                problems.append(("violation", f"after step {idx} {op}{what}: queries / aggregated_hypergraph / edge_overlap changed "
+                                              f"the multiplex hypergraph itself"))
+
         for idx, op in enumerate(steps):
+            cands = [[]]
+            what = ""
             if op is not None:
+                rs = random.Random(zlib.crc32((json.dumps(op) + "/" + str(sty)).encode()))
                 before = set(orc.E)
-                a_real = real.apply(op)
+                was_w = orc.w
+                a_real = real.apply(op, rs)
                 a_orc = orc.apply(op)
                 lines.append(w_op(op))
                 real_ans.append(a_real)
@@ -799,27 +1255,26 @@ def _run_case(ctx, drv, case):
                         if any(k in seen_keys for k in ks) or len(set(ks)) < len(ks):
                             info["reinserts"] += 1
                     seen_keys |= set(orc.E) | before
-            real._agg = None
-            snap = real.snapshot()
-            for q in digest_queries(case, qrng):
-                a_real = real.query(q)
-                lines.append(w_q(q))
-                real_ans.append(a_real)
-                if q[0] not in MODEL_ONLY:
-                    a_orc = orc.query(q)
-                    if a_real != a_orc:
-                        problems.append(("violation", f"after step {idx} {op}: query {q} answers {a_real!r}, the map gives {a_orc!r}"))
-            for q in ORACLE_ONLY:
-                a_real, a_orc = real.query(q), orc.query(q)
-                if a_real != a_orc:
-                    problems.append(("violation", f"after step {idx} {op}: aggregate {q[0]} is {a_real!r}, the statement gives {a_orc!r}"))
-            if real.snapshot() != snap:
-                problems.append(("violation", f"after step {idx} {op}: queries / aggregated_hypergraph / edge_overlap changed the "
-                                              f"multiplex hypergraph itself"))
+                    if orc.w and not was_w:
+                        info["promoted"] += 1
+                    elif info["promoted"] and not weighted:
+                        info["after_promotion"] += 1
+                if real.pending:
+                    cands = real.pending
+                    what = " and an edit by the caller of the metadata dict it had passed"
+            block(idx, op, cands, what)
             if problems:
                 break
+            if random.Random(zlib.crc32(f"{idx}/{sty}/{len(lines)}".encode())).random() < 0.5:
+                rs = random.Random(zlib.crc32(f"abuse/{idx}/{sty}".encode()))
+                cands = real.abuse(orc, rs, case["n"])
+                info["requeried"] += 1
+                block(idx, op, cands, " and after the caller overwrote the lists / dicts / aggregate that the queries had returned"
+                      + (" and edited a metadata dict reached through a getter" if len(cands) > 1 else ""))
+                if problems:
+                    break
     except Hang:
-        problems.append(("violation", "the implementation did not return within 20 s"))
+        problems.append(("violation", "the implementation did not return within 30 s"))
     finally:
         signal.alarm(0)
         signal.signal(signal.SIGALRM, old)
@@ -870,6 +1325,14 @@ def evaluate(ctx, drv, case, do_shrink=True):
     ctx.case(key, nontrivial, sample=sample if len(case["ops"]) <= 8 else None)
     for k in ("ok", "rej", "removals", "reinserts"):
         ctx.count("ops_" + k, info[k])
+    ctx.count("edits_of_shared_dicts_acting_as_setter", info["shared"])
+    ctx.count("edits_of_shared_dicts_without_effect", info["notshared"])
+    ctx.count("blocks_requeried_after_overwriting_returned_values", info["requeried"])
+    ctx.count("promotions_by_weighted_batch", info["promoted"])
+    ctx.count("accepted_calls_after_a_promotion", info["after_promotion"])
+    for k, v in info["stats"].items():
+        ctx.count(k, v)
+    ctx.count(f"labeling_{case['labeling']}")
     ctx.count("histories_weighted" if case["weighted"] else "histories_unweighted")
     if case["ctor"] is not None:
         ctx.count("histories_via_constructor")
@@ -902,14 +1365,50 @@ SEEDS = [
              ["addedges", [[0, 1], [0, 2]], [0], None, None]]},                                                  # D42
     {"n": 3, "nl": 2, "weighted": False, "hm0": [], "ctor": None, "pool": [[0, 1]], "labeling": 3, "qseed": 6,
      "ops": [["addedge", [0, 1], 1, None, None], ["setattre", [1, 0], 1, 100, 5], ["delattre", [0, 1], 1, 100]]},  # D14
+    # an unweighted object promoted by a weighted batch, then every kind of call on records that predate the promotion
+    {"n": 4, "nl": 2, "weighted": False, "hm0": [], "ctor": None, "pool": [[0, 1], [0, 1, 2], [1, 2]], "labeling": 7, "qseed": 7,
+     "sty": 7, "ops": [["addedge", [0, 1], 0, None, None], ["addedge", [2, 1, 0], 0, None, [[100, 5]]], ["addedge", [1, 2], 1, 4, None],
+                       ["addedges", [[1, 0], [1, 2], [0, 1]], [1, 0, 0], [6, 2, 8], None], ["addedge", [1, 2], 1, 10, None],
+                       ["setw", [0, 1], 1, 1], ["rmnode", 0, True], ["addedge", [1, 2], 0, None, None], ["rmedge", [2, 1], 1],
+                       ["addedges", [[2, 1]], [1], None, None], ["setw", [2, 1], 1, 0]]},
+    {"n": 4, "nl": 3, "weighted": False, "hm0": [], "ctor": [[], [[0, 1], [1, 0], [2]], [0, 1, 2], [8, 2, 6], None, False],
+     "pool": [[0, 1], [0, 1, 2], [2]], "labeling": 8, "qseed": 8, "sty": 8,
+     "ops": [["addedge", [1, 0], 0, 1, None], ["addedge", [0, 1, 2], 2, 6, None], ["rmnode", 1, True], ["rmnode", 0, True],
+             ["setw", [2], 2, 10]]},
 ]
+
+
+def known_d49(ctx):
+    """Known finding D49 (by design, not repaired): TUPLE node labels. `_canon_edge` reads a 2-element hyperedge whose two
+    members are tuples as a directed (source, target) pair: it sorts INSIDE the two tuples and not the pair. The witness is
+    replayed on every run; tuple node labels are kept out of the random streams (ASSUMPTIONS), tuple layer names are in"""
+    from hypergraphx import MultiplexHypergraph
+    try:
+        with contextlib.redirect_stdout(io.StringIO()):
+            h = MultiplexHypergraph()
+            h.add_edge((fresh((1, 2)), fresh((0, 5))), "A")
+            h.add_edge((fresh((0, 5)), fresh((1, 2))), "A")
+            recs = h.get_edges()
+            g = MultiplexHypergraph()
+            g.add_edge((fresh((2, 1)), fresh((0, 5))), "A")
+            nodes = g.get_nodes()
+        split = len(recs) == 2 and len({frozenset(r[0]) for r in recs}) == 1
+        renamed = (1, 2) in nodes and (2, 1) not in nodes
+    except Exception:
+        return
+    ctx.count("D49_witness_reproduced", 1 if (split or renamed) else 0)
+    if (split or renamed) and any(f.get("id") == "D49" for f in getattr(ctx, "known_findings", [])):
+        ctx.known("D49", "tuple node labels: add_edge(((1,2),(0,5)),'A'); add_edge(((0,5),(1,2)),'A') keeps "
+                         f"{len(recs)} records for one node set in one layer ({recs}); add_edge(((2,1),(0,5)),'A') creates the nodes "
+                         f"{nodes} - _canon_edge reads a pair of tuples as a directed (source, target) pair")
 
 
 def run(ctx):
     drv = ctx.driver() if ctx.model_available else None
-    for case in SEEDS:
+    known_d49(ctx)
+    for case in ([] if os.environ.get("C04_NO_SEEDS") else SEEDS):     # the knob is for testing the generator on its own
         evaluate(ctx, drv, case, do_shrink=False)
-    n = ctx.scale(600, 9000)
+    n = ctx.scale(400, 6000)
     for _ in range(n):
         if ctx.too_many() or (ctx.time_left() is not None and ctx.time_left() < 6):
             break
